@@ -7,7 +7,7 @@ Every case runs the real Filer in a fresh sandbox directory tree under core.scra
 The tree is snapshotted before the constructor, after it, after an optional owner step (a file or directory made at
 .path, as a subclass such as an LMDB or socket owner would) and after close(clear=True).
 """
-import itertools, os, posixpath, shutil
+import itertools, os, posixpath, shutil, socket, stat
 from harness.core import coq_list, coq_bool, coq_res, coq_nat, exn_kind, scratch_dir
 
 PROP = "C29"
@@ -20,7 +20,8 @@ RULE = ("name and base built from 0-3 segments out of {a, b, x.y, .h, .., ., '',
         "empty, hidden, climbing and extension-bearing segments, sometimes absolute) x all 16 combinations of temp, "
         "clean, filed, extensioned x pre-populated sandbox (nothing / file or directory already at the target path, "
         "with siblings / the tail directory replaced by a file so that the alt head is used / something at the alt "
-        "path) x owner step; a history stream runs the constructor and then 1-5 reopen(temp=None/True/False, fext, clear, "
+        "path) x owner step (a file, a directory, a FIFO, a bound unix socket or a symbolic link to a directory made at "
+        ".path, with siblings in the same directory); a history stream runs the constructor and then 1-5 reopen(temp=None/True/False, fext, clear, "
         "reuse, clean) / close(clear) calls on one Filer with a sibling Filer's file and unrelated files in the shared "
         "directories, and direct remake(name, base, temp, clean, filed, extensioned, fext) calls whose base/name differ "
         "from the constructor's (climbing, absolute, empty); 40 % of the histories run inside `with openFiler(...)` and "
@@ -84,6 +85,13 @@ def directed():
         out.append(dict(c, pre=[["head/hio", True]]))
         out.append(dict(c, pre=[["head/hio", True], [expected_rel(c, alt=True), bool(filed)]]))
     out.append(dict(mk("x"), pre=[["head/hio", True], ["alt/.hio", True]]))
+    # an extensioned, non-filed Filer whose path end is a FIFO / unix socket / symbolic link to a directory (the
+    # owner made it, as a uxd Peer does), siblings in the same directory
+    for temp in (False, True):
+        for ext in (True, False):
+            for owner in (3, 4, 5):
+                c = with_siblings(mk("x", "b", temp=temp, ext=ext, owner=owner))
+                out.append(dict(c, pre=c["pre"] + [["alt/lt", False]]))
     return out + directed_histories() + directed_remakes() + directed_ctx() + directed_doers()
 
 
@@ -98,7 +106,7 @@ def rand_path(rng):
 def random_case(rng):
     c = mk(rand_path(rng) if rng.random() < 0.9 else "x", rand_path(rng) if rng.random() < 0.6 else "",
            rng.random() < 0.4, rng.random() < 0.4, rng.random() < 0.5, rng.random() < 0.4,
-           rng.choice(["text", "text", "db"]), (), rng.choice([0, 0, 0, 1, 2]))
+           rng.choice(["text", "text", "db"]), (), rng.choice([0, 0, 0, 1, 2, 3, 4, 5]))
     r = rng.random()
     pre = []
     try:
@@ -121,6 +129,11 @@ def random_case(rng):
     # drop pre entries that would clash (a file used as a directory by another entry)
     files = {e[0] for e in pre if e[1]}
     pre = [e for e in pre if not any(e[0].startswith(f + "/") for f in files)]
+    if c["owner"] >= 3:
+        if inside and not any(e[0] == "head/hio" for e in pre) and rng.random() < 0.7:
+            d = posixpath.dirname(p)
+            pre += [e for e in ([d + "/sib.text", True], [d + "/other", True]) if e[0] != p and not any(q[0] == e[0] for q in pre)]
+        pre.append(["alt/lt", False])
     return dict(c, pre=pre)
 
 
@@ -274,10 +287,12 @@ def _snapshot(root, tmap):
     out = []
     for d, dirs, files in os.walk(outer):
         dirs.sort()
-        for x in dirs:
-            out.append([os.path.relpath(os.path.join(d, x), root), False])
-        for x in sorted(files):
-            out.append([os.path.relpath(os.path.join(d, x), root), True])
+        for x in dirs + sorted(files):
+            full = os.path.join(d, x)
+            m = os.lstat(full).st_mode
+            # False = directory, True = regular file, "o" = exists but neither (FIFO, socket, symbolic link)
+            kind = False if stat.S_ISDIR(m) else (True if stat.S_ISREG(m) else "o")
+            out.append([os.path.relpath(full, root), kind])
     # the chain of directories leading to the root is not content; anything else above the root shows up as ../...
     out = [e for e in out if e[0] != "." and set(e[0].split(os.sep)) != {".."}]
     return sorted([_canon(rel.split(os.sep), tmap), isf] for rel, isf in out)
@@ -433,6 +448,16 @@ def run_impl(case):
                     open(p, "w").close()
                 elif case["owner"] == 2:
                     os.mkdir(p)
+                elif case["owner"] == 3:
+                    os.mkfifo(p)
+                elif case["owner"] == 4:
+                    sk = socket.socket(socket.AF_UNIX, socket.SOCK_STREAM)
+                    try:
+                        sk.bind(p)       # what a uxd Peer leaves at its extensioned path
+                    finally:
+                        sk.close()
+                elif case["owner"] == 5:
+                    os.symlink(os.path.join(root, "alt", "lt"), p)     # symbolic link to a directory
             obs["owned"] = _snapshot(root, tmap)
             try:
                 filer.close(clear=True)
@@ -602,7 +627,8 @@ def _path(segs):
 
 
 def _fs(snap):
-    return coq_list([f"({_path(p)}, {coq_bool(f)})" for p, f in snap], "Path.path * bool")
+    kind = {False: "Path.KDir", True: "Path.KFile", "o": "Path.KOther"}
+    return coq_list([f"({_path(p)}, {kind[f]})" for p, f in snap], "Path.path * Path.fkind")
 
 
 def to_coq(case, obs):
@@ -637,7 +663,7 @@ def to_coq(case, obs):
                                           coq_bool(o["temp"]), _fs(o["snap"])))
     return ("{| Path.k_cfg := %s; Path.k_pre := %s; Path.k_open := %s; Path.k_mid := %s; Path.k_owner := %s; "
             "Path.k_clear := %s; Path.k_post := %s; Path.k_hops := %s; Path.k_hobs := %s |}" % (
-                cfg, _fs(obs["pre"]), coq_res(obs["open"], _path), _fs(obs["mid"]), coq_nat(case["owner"]),
+                cfg, _fs(obs["pre"]), coq_res(obs["open"], _path), _fs(obs["mid"]), coq_nat(min(case["owner"], 3)),
                 coq_res(obs["clear"], lambda _: "tt") if ok else "(Ok tt)", _fs(obs["post"]) if ok else _fs([]),
                 coq_list(hops, "Path.hop2"), coq_list(hobs, "res unit * option Path.path * bool * Path.fsys")))
 
